@@ -98,12 +98,21 @@ func VerifyNameErrorNSEC(msg *dns.Msg, nsecSet []dns.RR) error {
 
 	wildcard := "*." + ce
 	for _, rr := range nsecSet {
-		nsec := rr.(*dns.NSEC)
-		if nsecCovers(nsec.Header().Name, nsec.NextDomain, wildcard) {
+		if nsecDenies(rr.(*dns.NSEC), wildcard) {
 			return nil
 		}
 	}
 	return ErrNSECMissingCoverage
+}
+
+// nsecDenies reports whether the NSEC proves that name does not exist: name
+// lies inside the record's interval, and the interval does not end below
+// name. Canonical order puts a name directly before its descendants, so an
+// interval whose next name lies below name says the opposite — name exists,
+// as an empty non-terminal (RFC 4592 §2.2.2).
+func nsecDenies(nsec *dns.NSEC, name string) bool {
+	return nsecCovers(nsec.Header().Name, nsec.NextDomain, name) &&
+		!nsecProperAncestor(name, nsec.NextDomain)
 }
 
 // nsecProperAncestor reports whether ancestor is a proper ancestor of name:
